@@ -151,21 +151,23 @@ def plan_for(tier):
     plan.append((Cfg("MP[w2,n0]", "mulp", 2, [("list", 0)]), b, 1, None))
     plan.append((Cfg("MP2[w2,n2;n2]", "mulp", 2, [("list", 2), ("list", 2)]), 2 if q else 3, 1, None))
     plan.append((Cfg("MP[cpu,n2]", "mulp", -1, [("lazy", 2)], cpu_count=2), 2 if q else 3, 1, None))
+    grid = []
     if not q:
         for w in (1, 2, 3):
             for n in (0, 1, 2, 3):
                 for cs in (1, 2):
                     if n == 0 and cs == 2:
                         continue
-                    plan.append((Cfg("FMG[w%d,n%d,cs%d]" % (w, n, cs), "fmap", w, [("list", n, cs)], family="fmap-grid"), 3, 1, 300000))
+                    grid.append((Cfg("FMG[w%d,n%d,cs%d]" % (w, n, cs), "fmap", w, [("list", n, cs)], family="fmap-grid"), 3, 1, 300000))
         for w in (1, 2):
             for n in (0, 1, 2, 3):
-                plan.append((Cfg("MPG[w%d,n%d]" % (w, n), "mulp", w, [("list", n)], family="mulp-grid"), 3, 1, 300000))
-    return plan
+                grid.append((Cfg("MPG[w%d,n%d]" % (w, n), "mulp", w, [("list", n)], family="mulp-grid"), 3, 1, 300000))
+    return plan, grid
 
 
 def run(report, tier):
-    run_pool_check(report, "C05", plan_for(tier), kit=KIT, what="pools.py / maps.py / workers.py")
+    plan, grid = plan_for(tier)
+    run_pool_check(report, "C05", plan, kit=KIT, what="pools.py / maps.py / workers.py", grid=grid or None)
     report.assume("a non-blocking get() on a multiprocessing.Queue may report Empty although an item was put (feeder thread): "
                   "explored as an environment deviation (<= 1 per execution)")
 
